@@ -101,6 +101,12 @@ func (H) Generate(r *simrt.Rand, tier string) any {
 				s.Peers = append(s.Peers, Peer{Kind: "send", Delay: r.Intn(6), N: 1 + r.Intn(3+s.Cap/8)})
 			}
 		}
+		if r.Intn(4) == 0 {
+			// a competing consumer: whatever it takes, the queued receiver must not block
+			for i := 0; i < 1+r.Intn(2); i++ {
+				s.Peers = append(s.Peers, Peer{Kind: "recv", Delay: r.Intn(6), N: 1 + r.Intn(2+s.Cap/4)})
+			}
+		}
 		return s
 	}
 	s.Call = []string{"SendTimeout", "SendContext", "RecvTimeout", "RecvContext"}[r.Intn(4)]
@@ -435,6 +441,17 @@ func check(sc *Scenario, res *result, logs []peerLog, left []int, cancelAt, clos
 		want := sc.Fill
 		if want > sc.Limit {
 			want = sc.Limit
+		}
+		competing := false
+		for _, p := range sc.Peers {
+			if p.Kind == "recv" {
+				competing = true
+			}
+		}
+		if competing {
+			// another consumer may take queued values first: only never-blocks, the
+			// limit, FIFO order and conservation (above) are required
+			return nil
 		}
 		if len(got) < want {
 			return &core.Violation{Signature: "recvqueued-missed-queued-values", Detail: fmt.Sprintf("%d values were queued at the call (limit %d) but only %v was returned", sc.Fill, sc.Limit, got)}
